@@ -34,7 +34,9 @@ PROP.selftest(kepler.selftest)
 # Worst on the unchanged tree over ~3e3 cases: vs Kepler 7.5e-5 km / 8.8e-8 km/s (RK45, rtol 1e-10, 16 LEO revolutions);
 # between two integrations of the same problem (composition, batch, grid, epoch split) 1.2e-5 km / 1.3e-8 km/s.
 # Tolerances are >= 60x those; a stride slip in the batch layout or a sign slip in the epoch moves results by >= 0.1 km.
-TOL = {"kepler": (5e-3, 5e-6), "bulk": (5e-3, 5e-6)}
+TOL = {"kepler": (5e-3, 5e-6), "bulk": (5e-3, 5e-6), "sp_composition": (2e-3, 2e-6), "sp_epoch_split": (2e-3, 2e-6), "sp_batch": (2e-3, 2e-6)}
+# perturbed arcs (up to 6 h, incl. shadow crossings): worst observed over ~1.5e3 cases 1.1e-4 km / 9e-8 km/s per scale unit; a one-day
+# epoch slip moves a 2 h arc by >= 0.01 km
 DEFAULT_TOL = (8e-4, 8e-7)
 
 
@@ -127,8 +129,8 @@ def _sp_cases():
                 "srp": srp, "gr": gr, "method": meth, "K": k}
 
     return st.builds(
-        mk, eop_instants(margin_days=4), so.elements(e_cap=0.6, min_perigee_alt=300.0, a_max=45000.0),
-        st.sampled_from([30.0, 120.0, 600.0, 1800.0]), st.floats(0.05, 0.95), st.sampled_from([1, 37, 60, 3600, 86400]),
+        mk, eop_instants(margin_days=12), so.elements(e_cap=0.6, min_perigee_alt=300.0, a_max=45000.0),
+        st.sampled_from([30.0, 120.0, 600.0, 1800.0, 1800.0, 7200.0, 21600.0]), st.floats(0.05, 0.95), st.sampled_from([1, 37, 60, 3600, 86400, 86400, 172807, 864000]),
         st.sampled_from([0, 2, 4, 8]), st.floats(0, 1), st.sampled_from([[], ["sun"], ["moon"], ["sun", "moon"], ["sun", "moon", "jupiter"]]),
         st.booleans(), st.booleans(), st.sampled_from(["RK45", "DOP853"]), st.sampled_from([1, 1, 2, 3]))
 
@@ -146,7 +148,10 @@ def perturbed(c, rec):
     per = PerturbationsConfig(third_bodies=c["bodies"], solar_radiation_pressure=c["srp"], general_relativity=c["gr"])
     x0 = _state(c)
     dur, f, k = c["T"], c["f"], c["K"]
-    scale = 1.0
+    # solar radiation pressure switches off in the Earth's shadow: a discontinuous right-hand side whose crossing the adaptive
+    # integrators resolve only to a step, so two integrations of the same arc differ by up to ~3e-4 km per hour (observed); 5x room
+    scale = max(1.0, dur / 3600.0) * (5.0 if c["srp"] else 1.0)
+    rec.label("elapsed>=1day" if c["shift"] >= 86400 else "elapsed<1day")
     rec.nontrivial([c["t"], round(c["a"], -2), round(c["e"], 2), dur, round(f, 2), c["shift"], c["deg"], tuple(c["bodies"]), c["srp"], c["gr"], k])
     rec.label(c["method"])
     dyn = SpecialPerturbations(datetimeToJulianDate(t), geo, per, 0.02, method=c["method"])
